@@ -9,6 +9,9 @@ pub mod c03;
 pub mod c05;
 pub mod c06;
 pub mod c07;
+pub mod c11;
+pub mod c12;
+pub mod c13;
 pub mod common;
 
 pub struct PropDef {
@@ -28,7 +31,7 @@ pub struct PropDef {
 }
 
 pub fn all() -> Vec<&'static PropDef> {
-    vec![&c01::DEF, &c02::DEF, &c03::DEF, &c05::DEF, &c06::DEF, &c07::DEF]
+    vec![&c01::DEF, &c02::DEF, &c03::DEF, &c05::DEF, &c06::DEF, &c07::DEF, &c11::DEF, &c12::DEF, &c13::DEF]
 }
 
 pub fn find(id: &str) -> Option<&'static PropDef> {
